@@ -370,6 +370,7 @@ def run_check(prop, tier, seed):
     # ---- 5. correspondence run
     evals = 0
     model_skips = 0
+    impl_skips = 0
     disagreements = []
     oracle_fails = []
     alt_failures = []    # failures seen only under the alternative environment (other thread-pool size)
@@ -455,7 +456,11 @@ def run_check(prop, tier, seed):
             orc = None
             if "\tORACLE-FAIL:" in ir:
                 ir, orc = ir.split("\tORACLE-FAIL:", 1)
-            if ir == "skip" and mr == "skip":
+            if ir == "skip":
+                # the harness has no opinion on this op line (it declines lines outside an op's documented argument
+                # range before calling the crate): nothing to compare, whatever the model says
+                if mr != "skip":
+                    impl_skips += 1
                 continue
             evals += 1
             toks = op.split()
@@ -596,6 +601,7 @@ def run_check(prop, tier, seed):
             "samples": samples[:12] + [{"theorem": n} for n, _ in thms[:8]],
             "distribution": stats,
             "model_skipped_ops": model_skips,
+            "implementation_skipped_ops": impl_skips,
             "disagreements": len(disagreements),
             "oracle_failures": len(oracle_fails),
             "known_findings_replayed": [k["id"] for k, _ in reported_known.values()],
